@@ -1869,7 +1869,13 @@ register_foreach_in(RegisterTable *t,
         return rv;
     }
 
-    return reg_iterate(t, startreg.handle, addr + off - 1u, f, arg);
+    /* The range ends at the top of the address space at the latest; the sum
+     * addr + off wraps around for ranges reaching beyond it. */
+    const RegisterAddress last = ((off - 1u) > (REGISTER_ADDRESS_MAX - addr))
+        ? REGISTER_ADDRESS_MAX
+        : (addr + (off - 1u));
+
+    return reg_iterate(t, startreg.handle, last, f, arg);
 }
 
 RegisterEntry *
